@@ -101,7 +101,7 @@ def step_enqueue(maxf: int, f0: int, f1: int, f2: int, w0: int, w1: int, w2: int
     return ok and inv(q)
 
 
-@harness(pre=_PRE_STATE + ['0 <= count <= maxf + 2 and 0 <= handle <= nconn'], family='queue-step', grids=_GRIDS, timeout=(20, 300),  kernels=K_QUEUE,
+@harness(pre=_PRE_STATE + ['0 <= count <= maxf + 2 and 0 <= handle <= nconn'], family='queue-step', grids=_GRIDS, timeout=(20, 150),  kernels=K_QUEUE,
          bounds='max_in_flight 1..4, 3 connections, <=3 waiting, completion count 0..6 (incl. over-reports), handle 0..3 (3 = unknown)',
          canaries=[('lifo', _canary_lifo), ('off-by-one-credit', _canary_no_limit)])
 def step_completed(maxf: int, f0: int, f1: int, f2: int, w0: int, w1: int, w2: int, nwait: int, count: int, handle: int, nconn: int) -> bool:
@@ -126,7 +126,7 @@ def step_completed(maxf: int, f0: int, f1: int, f2: int, w0: int, w1: int, w2: i
     return ok and inv(q)
 
 
-@harness(pre=_PRE_STATE + ['0 <= handle <= nconn'], family='queue-step', grids=_GRIDS, timeout=(20, 300), kernels=K_QUEUE,
+@harness(pre=_PRE_STATE + ['0 <= handle <= nconn'], family='queue-step', grids=_GRIDS, timeout=(20, 150), kernels=K_QUEUE,
          bounds='max_in_flight 1..4, 3 connections, <=3 waiting, flushed handle 0..3 (3 = unknown)')
 def step_flush(maxf: int, f0: int, f1: int, f2: int, w0: int, w1: int, w2: int, nwait: int, handle: int, nconn: int) -> bool:
     fl = [f0, f1, f2]
@@ -305,33 +305,26 @@ def _canary_pipe_lifo():
     utils.FlowControlAsyncPipe.pump = pump
 
 
-@harness(pre=['0 <= threshold <= 2', '0 <= o1 <= 3 and 0 <= o2 <= 3 and 0 <= o3 <= 3 and 0 <= o4 <= 3 and 0 <= o5 <= 3 and 0 <= o6 <= 3',
-              '1 <= l0 <= 2 and 1 <= l1 <= 2 and 1 <= l2 <= 2'],
+@harness(pre=['0 <= threshold <= 2', '0 <= o1 <= 3 and 0 <= o2 <= 3 and 0 <= o3 <= 3 and 0 <= o4 <= 3 and 0 <= o5 <= 3 and 0 <= o6 <= 3'],
          family='pipe', kernels=('bumble.utils.FlowControlAsyncPipe.write', 'bumble.utils.FlowControlAsyncPipe.pump',
-                                            'bumble.utils.FlowControlAsyncPipe.pause', 'bumble.utils.FlowControlAsyncPipe.resume',
-                                            'bumble.utils.FlowControlAsyncPipe.check_pump'),
-         timeout=(40, 200), canaries=[('pipe-lifo', _canary_pipe_lifo)],
-         grids=[(('quick',), {'o1': [0, 1, 2, 3], 'o2': [0, 1, 2, 3], 'o6': [3], 'l0': [1], 'l1': [2], 'l2': [1]}),
-                (('thorough',), {'o1': [0, 1, 2, 3], 'o2': [0, 1, 2, 3], 'o3': [0, 1, 2, 3], 'l0': [1, 2], 'l1': [2], 'l2': [1]})],
-         bounds='schedule of 6 symbolic steps from {write next packet (<=3 packets of 1..2 bytes), pause, resume, let the pump task run}, threshold 0..2, sink with an awaited drain')
-def pipe_order(threshold: int, o1: int, o2: int, o3: int, o4: int, o5: int, o6: int, l0: int, l1: int, l2: int) -> bool:
+                                 'bumble.utils.FlowControlAsyncPipe.pause', 'bumble.utils.FlowControlAsyncPipe.resume',
+                                 'bumble.utils.FlowControlAsyncPipe.check_pump'),
+         timeout=(40, 90), canaries=[('pipe-lifo', _canary_pipe_lifo)],
+         grids=[(('quick',), {'o1': [0, 1, 2, 3], 'o2': [0, 1, 2, 3], 'o6': [2]}),
+                (('thorough',), {'o1': [0, 1, 2, 3], 'o2': [0, 1, 2, 3], 'o3': [0, 1, 2, 3]})],
+         bounds='schedule of 6 symbolic steps from {write next packet (3 packets of 2,1,1 bytes), pause, resume, sink progress (the awaited drain completes)}, threshold 0..2; the pump task runs to quiescence after every step')
+def pipe_order(threshold: int, o1: int, o2: int, o3: int, o4: int, o5: int, o6: int) -> bool:
     with detloop.running() as loop:
         got = []
-        src = {'paused': False, 'calls': []}
-
-        def pause_source():
-            src['paused'] = True
-
-        def resume_source():
-            src['paused'] = False
+        drains = []
 
         async def drain_sink():
             f = loop.create_future()
-            loop.call_soon(f.set_result, None)
+            drains.append(f)
             await f
-        pipe = utils.FlowControlAsyncPipe(pause_source, resume_source, write_to_sink=got.append, drain_sink=drain_sink, threshold=threshold)
+        pipe = utils.FlowControlAsyncPipe(lambda: None, lambda: None, write_to_sink=got.append, drain_sink=drain_sink, threshold=threshold)
         pipe.start()
-        packets = [bytes([0xA0 + i]) * n for i, n in enumerate((l0, l1, l2))]
+        packets = [b'\xa0\xa0', b'\xa1', b'\xa2']
         written = []
         for o in (o1, o2, o3, o4, o5, o6):
             if o == 0:
@@ -342,11 +335,17 @@ def pipe_order(threshold: int, o1: int, o2: int, o3: int, o4: int, o5: int, o6: 
                 pipe.pause()
             elif o == 2:
                 pipe.resume()
-            else:
-                loop.run_ready()
+            elif drains:
+                drains.pop(0).set_result(None)
+            loop.run_ready()
             if got != written[:len(got)]:
                 return False
+        # the sink keeps consuming and the pipe is resumed: everything written must come out, in order
         pipe.resume()
-        loop.run_ready()
+        for _ in range(8):
+            loop.run_ready()
+            while drains:
+                drains.pop(0).set_result(None)
+                loop.run_ready()
         pipe.stop()
         return got == written and pipe.queued_bytes == 0 and not pipe.queue
